@@ -104,6 +104,19 @@ let eval_line sub k =
       let ups = List.init n (fun _ -> tree ()) in Rec (nat_of_int i, nat_of_int st, O, ups) in
     let r = tree () in
     String.concat " " (List.map (fun x -> string_of_int (int_of_nat (rid x))) (report r))
+  | "json" ->
+    let rec prs () =
+      let id = str k in let proc = str k in let cmd = str k in
+      let params = pairs k in let tags = pairs k in
+      let st = str k in let fi = str k in
+      let neg = int k = 1 in let ex = nat_of_int (int k) in
+      let outs = pairs k in
+      let nup = int k in
+      let ups = List.init nup (fun _ -> let p = str k in let r = prs () in (p, r)) in
+      JRec (id, proc, cmd, params, tags, st, fi, neg, ex, outs, ups) in
+    let r = prs () in
+    let bytes = jrender O r in
+    hexl bytes ^ (match decode bytes with Some r' when r' = r -> " RT" | Some _ -> " DIFF" | None -> " UNMARSHAL-ERROR")
   | _ -> failwith ("unknown subcommand " ^ sub)
 
 
